@@ -1,6 +1,8 @@
 """C10 — centering, normalising, standardising, rescaling achieve what they promise."""
 from __future__ import annotations
 
+import warnings
+
 import numpy as np
 
 from harness import common as C
@@ -173,6 +175,7 @@ def run(rep, props, replay=None):
             rep.violation("dense data: " + "; ".join(mon), {"x": C.hexf(x), "X": C.hexf(X)})
         if i % 4 == 0:
             other_kinds(rep, rng, x, X, quick)
+    unit_monitor(rep, np.random.default_rng([C.seed(), 10, 3]))
     res = runq.run()
     for t, what, kind, X in todo:
         rep.case((what, kind, X.tobytes()), nontrivial=bool(np.ptp(X) > 0), kind=f"{what}/{kind}",
@@ -180,6 +183,56 @@ def run(rep, props, replay=None):
         if not res[t]:
             rep.disagreements_checked += 1
             rep.violation(f"{what}: implementation differs from the exact model", {"what": what, "grid": kind, "X": C.hexf(X)})
+
+
+def unit_monitor(rep, rng):
+    """The same curves recorded in other units (times a power of two: exact): normalising, standardising and rescaling give the
+    same curves, the rescaling weight scales with the square of the factor, centring scales with the factor."""
+    from FDApy.representation.basis import Basis
+    from FDApy.representation.functional_data import BasisFunctionalData
+    from FDApy.representation.argvals import DenseArgvals
+    x = fd.grid(rng, 9, "nonuniform")
+    X = fd.dyadic_matrix(rng, 5, 9) + 0.5 * np.arange(5)[:, None]
+    tb = np.linspace(0, 1, 21)
+    coef = fd.dyadic_matrix(rng, 4, 4) + 1.0
+
+    def builders(c):
+        yield "dense", fd.dense(x, X * c)
+        yield "multivariate", fd.multivariate([fd.dense(x, X * c), fd.dense(x, X[:, ::-1] * c + c)])
+        yield "basis", BasisFunctionalData(basis=Basis(name="bsplines", n_functions=4, argvals=DenseArgvals({"input_dim_0": tb})),
+                                           coefficients=coef * c)
+
+    def vals(o):
+        if hasattr(o, "data"):
+            return np.concatenate([np.asarray(p.values, float).ravel() for p in o.data])
+        return np.asarray((o.to_grid() if not hasattr(o, "values") else o).values, float).ravel()
+    ops = [("normalize", lambda o: vals(o.normalize()), 0), ("standardize", lambda o: vals(o.standardize()), 0),
+           ("center", lambda o: vals(o.center()), 1), ("rescale: values", lambda o: vals(o.rescale()[0]), 0),
+           ("rescale: weight", lambda o: np.atleast_1d(np.asarray(o.rescale()[1], float)), 2)]
+    for e in (-30, 24):
+        c = 2.0 ** e
+        for (kind, o1), (_, oc) in zip(builders(1.0), builders(c)):
+            bad = []
+            for name, f, power in ops:
+                if kind == "multivariate" and name == "standardize":
+                    continue
+                try:
+                    with warnings.catch_warnings():
+                        warnings.simplefilter("ignore")
+                        a1, ac = f(o1), f(oc)
+                except ModuleNotFoundError:
+                    continue
+                except Exception as ex:  # noqa: BLE001
+                    bad.append(f"{name} raised {type(ex).__name__}: {str(ex)[:60]}")
+                    continue
+                want = a1 * c ** power
+                if ac.shape != want.shape or not np.all(np.isfinite(ac)) or \
+                        np.max(np.abs(ac - want)) > 1e-7 * max(1e-300, float(np.max(np.abs(want)))):
+                    bad.append(f"{name} is not {'unchanged' if power == 0 else 'scaled by the factor^' + str(power)}")
+            rep.case(("units", kind, e), kind=f"units/{kind}")
+            if bad:
+                rep.violation(f"{kind} data in other units (the same curves times 2^{e}): " + "; ".join(bad),
+                              {"kind": kind, "x": C.hexf(x), "X": C.hexf(X), "coefficients": C.hexf(coef), "factor_exponent": e})
 
 
 def other_kinds(rep, rng, x, X, quick):
